@@ -6,7 +6,7 @@ import vlib
 LEVEL = "model_checking"
 SPEC = ["C04_BoundsIter", "C10_ProjState"]
 
-# definition ids of harness table c10Defs: 1 WGS84 (named), 2 EPSG:3857 (named), 3 utm, 4 lcc 3-param, 5 tmerc 7-param,
+# definition ids of harness table c10Defs: 1 WGS84 (named), 2 EPSG:3857 (named), 3 utm, 4 lcc 3-param, 5 krovak (non-Bessel ellipsoid) 7-param,
 # 6 longlat axis=wnu, 7 longlat 3-param
 CONSTS = "  NDefs = %d\n  Named = {1, 2}\n  HopDefs = {4, 5, 7}\n  WGSCode = {1, 3, 6}\n  NPts = %d\n"
 
